@@ -486,6 +486,23 @@ fn full_dir_setup(vol: &VolCfg) -> Vec<FStep> {
     v
 }
 
+/// fourteen names with the same two leading characters, extension and 16-bit name hash: the first four take the
+/// numbered 6-character aliases, the next nine the hash form with tails 1..9, and creating the fourteenth exhausts the
+/// first round of candidates (the library then scans the directory again with the next hash)
+pub fn collision_family() -> &'static Vec<String> {
+    static FAM: std::sync::OnceLock<Vec<String>> = std::sync::OnceLock::new();
+    FAM.get_or_init(|| super::c16::same_hash_family("zq", ".log", 14, 9))
+}
+
+fn collision_dir_setup() -> Vec<FStep> {
+    let mut v = vec![FStep::CreateDir("dir2/dir3".into())];
+    for n in collision_family().iter().take(13) {
+        v.push(FStep::CreateFile(format!("dir2/dir3/{}", n)));
+        v.push(FStep::CloseFile);
+    }
+    v
+}
+
 /// the representative operations (each a target run on a freshly mounted populated volume)
 pub fn targets() -> Vec<(&'static str, Vec<FStep>, Vec<FStep>)> {
     let m = || vec![FStep::Mount];
@@ -525,6 +542,9 @@ pub fn targets() -> Vec<(&'static str, Vec<FStep>, Vec<FStep>)> {
         ("move_dir_into_almost_full_dir", m(), vec![FStep::Rename("dir1/sub".into(), "dir2/almostdir/sub moved".into())]),
         ("create_in_full_root", m(), vec![FStep::CreateFile("G00".into())]),
         ("create_long_in_full_root", m(), vec![FStep::CreateFile("a long name in the root spanning slots.txt".into())]),
+        // every alias candidate of the first round is taken: the existence check scans the directory a second time
+        ("create_when_all_first_round_aliases_are_taken", m(), vec![FStep::CreateFile(format!("dir2/dir3/{}", collision_family()[13]))]),
+        ("move_when_all_first_round_aliases_are_taken", m(), vec![FStep::Rename("empty.txt".into(), format!("dir2/dir3/{}", collision_family()[13]))]),
         // the access-date option makes reads write (the entry's access date, when the handle is flushed)
         ("read_with_access_dates", vec![FStep::MountAtime], vec![FStep::OpenFile("big.bin".into()), FStep::Read(100), FStep::Flush]),
         ("list_and_read_with_access_dates", vec![FStep::MountAtime], vec![FStep::ListDir("dir1".into()), FStep::OpenFile("dir1/sub/deep file.txt".into()), FStep::SeekStart(600), FStep::Read(900), FStep::Flush]),
@@ -567,6 +587,7 @@ pub fn populated(vol: &VolCfg) -> Result<Store, String> {
     let base = dev.snapshot();
     let mut setup = base_setup();
     setup.extend(full_dir_setup(vol));
+    setup.extend(collision_dir_setup());
     setup.push(FStep::Unmount);
     let run_steps = |store: Store, steps: &[FStep]| -> Result<Store, String> {
         let devp = MemDev::new(store);
@@ -705,7 +726,7 @@ fn fstep_strategy() -> impl Strategy<Value = FStep> {
 }
 
 pub fn run(tier: Tier, seed: u64) -> i32 {
-    let rule = "exhaustive single-fault enumeration: for every volume (FAT12/16/32, FAT32 with unknown FS-info count) x representative operation (mount, stats, status flags, labels, list, deep open+read, create+write+flush, overwrite, seek+read, append, truncate, set times, mkdir, remove file/dir, rename, move file/dir, extents, unmount, format, reads with the access-date option on, and create / mkdir / move / append on a volume without a free cluster, whose out-of-space paths clean up after themselves) every position k of the operation's device-call sequence fails once with a tagged error (read, write, seek and flush alike); the public call (or iterator item) in progress must return Error::Io with that tag, within 50*N+1000 device calls and without panic; faults inside destructors are exempt (drop-depth hook); plus the same enumeration on a std::io storage behind fatfs::StdIoWrapper with a std::io::Error of each kind except Interrupted (the one kind the storage traits document as 'retry'): the call must return Error::Io carrying that kind; plus random scripts whose last steps are enumerated the same way; non-trivial = the fault fired outside a destructor; distinct by (script, volume, k)";
+    let rule = "exhaustive single-fault enumeration: for every volume (FAT12/16/32, FAT32 with unknown FS-info count) x representative operation (mount, stats, status flags, labels, list, deep open+read, create+write+flush, overwrite, seek+read, append, truncate, set times, mkdir, remove file/dir, rename, move file/dir, extents, unmount, format, reads with the access-date option on, create / move into a directory where every first-round alias candidate is taken (second directory scan), and create / mkdir / move / append on a volume without a free cluster, whose out-of-space paths clean up after themselves) every position k of the operation's device-call sequence fails once with a tagged error (read, write, seek and flush alike); the public call (or iterator item) in progress must return Error::Io with that tag, within 50*N+1000 device calls and without panic; faults inside destructors are exempt (drop-depth hook); plus the same enumeration on a std::io storage behind fatfs::StdIoWrapper with a std::io::Error of each kind except Interrupted (the one kind the storage traits document as 'retry'): the call must return Error::Io carrying that kind; plus random scripts whose last steps are enumerated the same way; non-trivial = the fault fired outside a destructor; distinct by (script, volume, k)";
     let mut rep = Report::new("C09", tier, seed, "fault_enumeration", rule);
     rep.assume("single faults only (one failing device call per run)");
     rep.assume("device calls issued from File::drop / FileSystem::drop are exempt, identified by the verif_drop_depth hook");
